@@ -119,6 +119,51 @@ def _named_root(body, op, depth=12):
     return None
 
 
+_FACTS = [None]
+
+
+def _string_table_role(body, local):
+    """'atoms' for the Vec<String> obtained from splitting the end delimiter, 'class_safe' for the Vec<String> collected from
+    mapping the bracket-safe conversion over it (identified by how the vector is built, not by its name)"""
+    from ..dataflow import single_def
+    ty = body.local_ty(local)
+    if "Vec<std::string::String>" not in ty and "Vec<String>" not in ty:
+        return None
+    t = operand_term(body, ["c", [local]])
+    hops = 0
+    while hops < 8:
+        hops += 1
+        if t[0] == "proj":
+            t = t[1]
+            continue
+        if t[0] == "call":
+            nm = (t[1].path or "").split("::")[-1]
+            if nm == "collect":
+                return "class_safe"
+            if nm in ("branch", "unwrap", "expect", "from_residual"):
+                t = operand_term(body, t[1].args[0]) if t[1].args else ("unknown",)
+                continue
+            if nm in ("call", "call_mut", "call_once"):
+                return "atoms"
+        break
+    return "atoms" if [x for x in body.defs(local)] else None
+
+
+def _closure_role(body, local):
+    """'class_safe_atom' for the closure that consults must_escape_in_bracketed_expression"""
+    from ..dataflow import single_def
+    facts = _FACTS[0]
+    d = single_def(body, local)
+    if facts is None or not d or d[0] != "assign" or d[3][0] != "agg" or d[3][1] != "closure":
+        return None
+    cb = facts.body_by_path_opt(d[3][2])
+    if cb is None:
+        return None
+    if any((c.path or "").endswith("must_escape_in_bracketed_expression") for c in cb.calls()):
+        return "class_safe_atom"
+    return "other-closure"
+
+
 def _sym_value(body, op, depth=40):
     """symbolic value of a string operand of format_block_comment:
     ('s',) | ('e',) | ('atom', i) | ('class', i) | ('cat', [...]) | ('atoms_prefix',) | ('class_i',) | ('unknown', why)"""
@@ -129,10 +174,10 @@ def _sym_value(body, op, depth=40):
     l = place[0]
     name = body.local_name(l)
     flds = [e for e in place[1:] if isinstance(e, list) and e[0] == "f"]
-    if name == "s" and l == 1:
-        return ("s",)
-    if name == "e" and l == 2:
-        return ("e",)
+    if l == 1 and not flds:
+        return ("s",)           # first parameter: the start delimiter
+    if l == 2 and not flds:
+        return ("e",)           # second parameter: the end delimiter
     d = single_def(body, l)
     if d is None:
         return ("unknown", "no single definition of %s" % (name or l))
@@ -141,7 +186,7 @@ def _sym_value(body, op, depth=40):
         n = (c.path or "").split("::")[-1]
         if n == "index" and len(c.args) == 2:
             base = _named_root(body, c.args[0])
-            bname = body.local_name(base) if base is not None else None
+            bname = _string_table_role(body, base) if base is not None else None
             it = operand_term(body, c.args[1])
             if it[0] == "const" and isinstance(it[2], int) and bname in ("atoms", "class_safe"):
                 return ("atom" if bname == "atoms" else "class", it[2])
@@ -159,7 +204,7 @@ def _sym_value(body, op, depth=40):
             return _sym_value(body, c.args[0], depth - 1)
         if n in ("call", "call_mut", "call_once") and len(c.args) == 2:
             clo = _named_root(body, c.args[0])
-            cname = body.local_name(clo) if clo is not None else None
+            cname = _closure_role(body, clo) if clo is not None else None
             at = operand_term(body, c.args[1])
             inner = None
             rp = None
@@ -263,6 +308,7 @@ def block_comment_templates(ctx, facts):
     'start, then up to the first occurrence of the end delimiter'.  Atoms are taken as single ordinary characters; escaping of
     the delimiters themselves is not modelled."""
     f = facts.body(FBC)
+    _FACTS[0] = facts
     tps = _templates(f)
     # ---- two-atom branch: templates that mention both a0/a1 (or c0/c1)
     two = []
